@@ -103,6 +103,11 @@ func init() {
 			ex.mapOrder = c.IsConst() && c.B
 			return nil
 		},
+		"verifRaceDetect": func(ex *Exec, fn *ssa.Function, args []Value) Value {
+			c := args[0].(*Term)
+			ex.race = c.IsConst() && c.B
+			return nil
+		},
 		"verifTier": func(ex *Exec, fn *ssa.Function, args []Value) Value {
 			return BVConst(uint64(currentTier), 64)
 		},
